@@ -38,6 +38,7 @@ type World struct {
 
 // Node is one PD member slot.
 type Node struct {
+	StartedAt  time.Time // simulated time of the latest (re)start
 	W          *World
 	ID         int
 	Name       string
@@ -121,6 +122,7 @@ func (n *Node) config() (*config.Config, error) {
 // Start boots the member: must be called from a task; the caller's task becomes
 // a task of this node for the duration of start-up (so that a crash kills it).
 func (n *Node) Start() error {
+	n.StartedAt = time.Now()
 	w := n.W
 	if n.Up || n.starting {
 		return nil
